@@ -1,6 +1,8 @@
 """C08 -- hot_reload always returns: no deadlock, no crash, any number of callers.
 Liveness obligations turned into CFG rules (DESIGN.md section 4, C08)."""
 import re
+
+import common
 from collections import deque
 
 from common import BLOCKING, GUARD_TY, LOCK_ACQUIRE, pt_deref, user_call_kind
@@ -324,24 +326,102 @@ def r4(R4, cfg, F):
         R4.check(cs == [want], cfg, cb.path, 'predicate=' + want, 'wait predicate of %s must be `%s`' % (fn, {'ne': '*t != Some(token)', 'is_some': 't.is_some()'}[want]), cb.loc())
 
 
+BOUNDED_CHANNEL = re.compile(r'^crossbeam_channel::(bounded|Sender::<T>::(send_timeout|send_deadline))|^std::sync::mpsc::sync_channel')
+SEND = re.compile(r'^crossbeam_channel::Sender::<T>::send$')
+
+
+def is_blocking(F, name):
+    """BLOCKING, except that Sender::send cannot block when every channel of the crate is unbounded"""
+    if not BLOCKING.search(name):
+        return False
+    if SEND.search(name):
+        if getattr(F, '_bounded', None) is None:
+            F._bounded = any(c.callee and BOUNDED_CHANNEL.search(c.callee.best) for c in F.all_calls())
+        return F._bounded
+    return True
+
+
+def closure_args(F, b, c):
+    """bodies of the crate closures handed to call `c` as arguments (the callee may run them)"""
+    out = []
+    for a in c.args:
+        ap = b.access_path(a)
+        if ap and len(ap) == 1 and ap[0].startswith('agg@bb'):
+            m = re.match(r'agg@bb(\d+)\.(\d+)$', ap[0])
+            st = b.blocks[int(m.group(1))]['stmts'][int(m.group(2))]
+            if st['rv'].get('closure'):
+                out.append(st['rv']['closure'])
+    return out
+
+
+def param_callbacks(F, b, c):
+    """an indirect call whose callee value is a parameter of a crate-private function (directly, or captured by a
+    closure of that function): the closures passed for that parameter at every call site of the function.
+    None if it cannot be resolved that way (then the call is user code)."""
+    if not c.args:
+        return None
+    f = b
+    ap = common.deep_path(b, c.args[0])
+    if b.kind == 'Closure':
+        f = F.body(b.root)
+        if f is None:
+            return None
+        ap = common.through_closure(f, b, c.args[0])
+    ap = [e for e in (ap or []) if e not in ('&', '*')]
+    if len(ap) != 1 or not re.match(r'arg\d+$', ap[0]):
+        return None
+    k = int(ap[0][3:])
+    sig = F.fns.get(f.path)
+    if not sig or sig['vis'] == 'pub':
+        return None
+    tr = sig.get('impl_trait')
+    if tr and (F.traits.get(tr) or {}).get('vis') == 'pub':
+        return None
+    item = sig.get('trait_item')
+    sites = [x for x in F.all_calls() if x.callee and (x.callee.best == f.path or (item and x.callee.defp == item) or x.callee.resolved == f.path)]
+    if not sites:
+        return None
+    out = []
+    for x in sites:
+        if k - 1 >= len(x.args):
+            return None
+        xa = x.body.access_path(x.args[k - 1])
+        if not xa or len(xa) != 1 or not xa[0].startswith('agg@bb'):
+            return None
+        m = re.match(r'agg@bb(\d+)\.(\d+)$', xa[0])
+        st = x.body.blocks[int(m.group(1))]['stmts'][int(m.group(2))]
+        if not st['rv'].get('closure'):
+            return None
+        out.append(st['rv']['closure'])
+    return sorted(set(out))
+
+
 def may_block(F):
     """functions that (transitively, direct + CHA edges, closures included)
     contain user code, a blocking call or a lock acquisition"""
     own = {}
+    extra = {}
     for b in F.fn_bodies():
         why = None
         for c in b.calls():
             if c.exp:
                 continue
             k = user_call_kind(c)
+            if k == 'indirect':
+                cbs = param_callbacks(F, b, c)
+                if cbs is not None:
+                    extra.setdefault(b.path, set()).update(cbs)
+                    continue
             if k:
                 why = '%s at %s' % (k, c.loc())
                 break
-            if c.callee and (BLOCKING.search(c.callee.best) or LOCK_ACQUIRE.search(c.callee.best)):
+            if c.callee and (is_blocking(F, c.callee.best) or LOCK_ACQUIRE.search(c.callee.best)):
                 why = '%s at %s' % (c.callee.best, c.loc())
                 break
         own[b.path] = why
-    g = F.call_graph()
+    g = {k: set(v) for k, v in F.call_graph().items()}
+    for k, v in extra.items():
+        g.setdefault(k, set()).update(v)
     res = dict((k, v) for k, v in own.items() if v)
     changed = True
     while changed:
@@ -383,9 +463,19 @@ def r5(R5, cfg, F):
                     # waiting on the condvar with the condvar's own mutex guard (moved into the wait)
                     continue
                 k = user_call_kind(c)
+                cbs = param_callbacks(F, b, c) if k == 'indirect' else None
+                if cbs is not None:
+                    # a callback parameter of a crate-private function: every closure passed for it must be harmless
+                    for t in cbs:
+                        if t in mb:
+                            bad.append('%s runs the callback %s which %s' % (c.loc(), t, mb[t]))
+                    continue
+                for t in closure_args(F, b, c):
+                    if t in mb:
+                        bad.append('%s hands %s the closure %s which %s' % (c.loc(), nm, t, mb[t]))
                 if k:
                     bad.append('%s user code (%s)' % (c.loc(), k))
-                elif c.callee and BLOCKING.search(nm):
+                elif c.callee and is_blocking(F, nm):
                     bad.append('%s blocking call %s' % (c.loc(), nm))
                 elif c.callee and LOCK_ACQUIRE.search(nm):
                     bad.append('%s acquires %s while holding %s' % (c.loc(), nm, g.callee.best if g.callee else '?'))
